@@ -920,6 +920,80 @@ func init() {
 }
 
 func init() {
+	// Six voters. A removal (6 -> 5 voters: the quorum drops from 4 to 3) reaches one follower F only and is then
+	// overwritten there by the next leader, so F is back to the six-voter configuration. F is then cut off together
+	// with two other voters: three of six are no majority - F must neither be elected nor commit anything there.
+	regScenario("member-trunc6", func() *Scenario {
+		return &Scenario{Nodes: voters(6), Devs: DevAll, Horizon: 1400, AutoRestart: true,
+			Goal: func(w *World) bool { return w.vals["healed"] == 1 && w.converged() },
+			Steps: []Step{
+				stepApplyLeader("apply1"),
+				stepDo("pair-off-leader-and-one-follower+remove-X", whenSettled, func(w *World) {
+					l := w.leader()
+					f := w.aFollower()
+					w.vals["L1"], w.vals["F"] = l.id, f.id
+					var rest []int
+					for _, o := range w.nodes {
+						if o.id != l.id && o.id != f.id {
+							rest = append(rest, o.id)
+							w.cut(l.id, o.id, true)
+							w.cut(f.id, o.id, true)
+						}
+					}
+					w.vals["X"], w.vals["P"], w.vals["Q"] = rest[0], rest[1], rest[2]
+					w.remove(l, rest[0], 0)
+				}),
+				stepDo("cut-the-pair-apart", func(w *World) bool {
+					f := w.nodes[w.vals["F"]]
+					l := f.store.Peek(f.store.Hi())
+					return w.netIdle() && l != nil && l.Type == raft.LogConfiguration && f.store.Hi() > 1
+				}, func(w *World) { w.cut(w.vals["L1"], w.vals["F"], true) }),
+				stepDo("follower-rejoins-the-majority", func(w *World) bool {
+					l := w.stableLeader()
+					return l != nil && l.id != w.vals["L1"] && l.id != w.vals["F"] && w.netIdle()
+				}, func(w *World) {
+					f := w.vals["F"]
+					w.vals["L2"] = w.stableLeader().id
+					for _, o := range w.nodes {
+						if o.id != f && o.id != w.vals["L1"] {
+							w.cut(f, o.id, false)
+						}
+					}
+				}),
+				stepDo("F-with-two-others-only", func(w *World) bool {
+					l := w.stableLeader()
+					f := w.nodes[w.vals["F"]]
+					return l != nil && l.id == w.vals["L2"] && w.netIdle() && f.r != nil && f.r.LastIndex() == l.r.LastIndex() && f.r.CommitIndex() == l.r.CommitIndex()
+				}, func(w *World) {
+					// two voters other than the removed-then-restored X, the old leader and the current leader
+					var side []int
+					for _, id := range []int{w.vals["P"], w.vals["Q"], w.vals["X"]} {
+						if id != w.vals["L2"] && len(side) < 2 {
+							side = append(side, id)
+						}
+					}
+					in := map[int]bool{w.vals["F"]: true, side[0]: true, side[1]: true}
+					for _, a := range w.nodes {
+						for _, b := range w.nodes {
+							if a.id < b.id {
+								w.cut(a.id, b.id, in[a.id] != in[b.id] || (!in[a.id] && (a.id == w.vals["L1"] || b.id == w.vals["L1"])))
+							}
+						}
+					}
+					w.vals["split"] = w.events
+				}),
+				stepDo("heal-all", func(w *World) bool { return w.vals["split"] > 0 && w.events > w.vals["split"]+250 }, func(w *World) {
+					for k := range w.blocked {
+						delete(w.blocked, k)
+					}
+					w.vals["healed"] = 1
+				}),
+				stepDo("apply-final", whenSettled, func(w *World) { w.apply(w.leader(), 0) }),
+			}}
+	})
+}
+
+func init() {
 	// even number of voters: a majority of 4 is 3
 	regScenario("write4", func() *Scenario {
 		sc := scenarioByName("write3")
